@@ -13,6 +13,7 @@ placement of the stop, including inside the idle sleep.
 from pyvc.runner import Unit, Property, Syntactic, Bounded
 from . import writer_units as WU
 from . import writer_forever as WF
+from . import c17 as C17
 
 
 def build():
@@ -21,9 +22,15 @@ def build():
     Unit('writer.writeCachedDataPoints[iteration]', WU.u_write_iteration, [WU.WCD], expect_covers=['iteration/exit']),
     Unit('writer.shutdownModifyUpdateSpeed', WF.u_shutdown_modify, [WF.W + ':shutdownModifyUpdateSpeed'],
          expect_covers=['shutdown/returns']),
+    # "nothing eligible" from the strategy must mean "nothing cached" once the lag is 0: the queue
+    # generators answer None only for timesorted with a lag set (clauses shared with C17)
+    C17.u_generator('NaiveStrategy', 'naive'), C17.u_generator('SortedStrategy', 'sorted'),
+    C17.u_generator('TimeSortedStrategy', 'timesorted'),
   ]
   return Property(
     'C04', units,
+    label_prefixes=['C04/', 'C17/NaiveStrategy/None_only', 'C17/SortedStrategy/None_only', 'C17/TimeSortedStrategy/None_only',
+                    'C17/NaiveStrategy/choose_in_cache', 'C17/SortedStrategy/choose_in_cache', 'C17/TimeSortedStrategy/choose_in_cache'],
     bounded=[Bounded('C04/native/cache_side_schedules', 'replay/cache_sched_native.py', ['--depth', '2', '--only', 'sched-undrainable,sched-conservation'], ['--depth', '3', '--only', 'sched-undrainable,sched-conservation'],
                      "the real _MetricCache under deterministic two-thread schedules (the other thread runs at every line step of a store / drain_metric at which the lock is not held), all seven strategies: afterwards repeated draining -- what the writer's final pass does -- hands out every accepted datapoint; drain_metric never reports an empty cache while datapoints are held",
                      "the writer-loop schedules of the clause below treat cache operations as atomic; this one interleaves inside them"),
@@ -37,6 +44,6 @@ def build():
     assumptions=[
       "A-TWISTED-DEFER: reactor.running turns False once; afterwards the reactor thread only joins the thread pool (no further stores); 'before shutdown' triggers run before that",
       "contract of writeCachedDataPoints used here (proved in the iteration unit + C02/C17): a normal return means the cache was seen empty or the strategy had nothing eligible; an exception leaves the cache as it was",
-      "with MIN_TIMESTAMP_LAG == 0 after shutdownModifyUpdateSpeed, 'nothing eligible' means 'nothing cached' (timesorted strategy contract, C17)",
+      "with MIN_TIMESTAMP_LAG == 0 after shutdownModifyUpdateSpeed, 'nothing eligible' means 'nothing cached': discharged here for the three queue generators (None_only_when_nothing_is_eligible, choose_in_cache); for max / bucketmax / random it is the C17 choose_item contract",
       "if the final pass is cut short by a backend exception the remaining datapoints are covered only by the logged error (the property's 'accounted for as errored' is read at pass granularity there)",
     ])
